@@ -45,6 +45,10 @@ for v in $VARIANTS; do
            if [ ! -f "$B/omp/kalign" ]; then
              gcc -O2 -g -DHAVE_OPENMP -fopenmp -DKALIGN_VERIF -DKALIGN_PACKAGE_NAME=\"kalign\" -DKALIGN_PACKAGE_VERSION=\"$VER\" -I"$B/gen" -I"$B/src/lib/include" -I"$B/src/lib/src" -std=gnu11 -w "$B/src/src/run_kalign.c" "$B/src/src/parameters.c" "$B/omp/libkalign.a" -lm -o "$B/omp/kalign.tmp" >&2 && mv "$B/omp/kalign.tmp" "$B/omp/kalign"
            fi ;;
+    plaincli) build_lib plain gcc -O2 -g -fPIC >&2
+           if [ ! -f "$B/plain/kalign" ]; then
+             gcc -O1 -g -DKALIGN_VERIF -DKALIGN_PACKAGE_NAME=\"kalign\" -DKALIGN_PACKAGE_VERSION=\"$VER\" -I"$B/gen" -I"$B/src/lib/include" -I"$B/src/lib/src" -std=gnu11 -w "$B/src/src/run_kalign.c" "$B/src/src/parameters.c" "$B/plain/libkalign.a" -lm -o "$B/plain/kalign.tmp" >&2 && mv "$B/plain/kalign.tmp" "$B/plain/kalign"
+           fi ;;
     asancli) build_lib asan clang -O1 -g -fsanitize=address,undefined -fno-sanitize-recover=undefined -fno-omit-frame-pointer -mavx2 -DHAVE_AVX2 >&2
            if [ ! -f "$B/asan/kalign" ]; then
              clang -O1 -g -fsanitize=address,undefined -fno-sanitize-recover=undefined -DKALIGN_VERIF -DKALIGN_PACKAGE_NAME=\"kalign\" -DKALIGN_PACKAGE_VERSION=\"$VER\" -I"$B/gen" -I"$B/src/lib/include" -I"$B/src/lib/src" -std=gnu11 -w "$B/src/src/run_kalign.c" "$B/src/src/parameters.c" "$B/asan/libkalign.a" -lm -o "$B/asan/kalign.tmp" >&2 && mv "$B/asan/kalign.tmp" "$B/asan/kalign"
